@@ -74,6 +74,12 @@ Proof.
   apply IH. intros s Hs. apply H. lia.
 Qed.
 
+(** [DFTSpecifications]: what is held fixed while the profile is iterated *)
+Inductive specification :=
+| ChemicalPotential
+| Moles (N : nat -> R)          (* particle number of every segment species *)
+| TotalMoles (Ntot : R).
+
 Section UniformEL.
 
   Variable g : grid.
@@ -127,15 +133,29 @@ Section UniformEL.
   Definition el_exponent (rho : field) : field :=
     fun s i => (dfdrho rho s i + Vext s i - dfdrho_bulk s) / m s.
   Definition exp_dfdrho (rho : field) : field := fun s i => exp (- el_exponent rho s i).
+  (** the Boltzmann factor times the bond integrals, before the bulk density is multiplied in *)
+  Definition boltzmann (rho : field) : field :=
+    fun s i => exp_dfdrho rho s i * BOND (exp_dfdrho rho) s i.
   Definition rho_projected (rho : field) : field :=
-    fun s i => exp_dfdrho rho s i * BOND (exp_dfdrho rho) s i * rho_b s.
+    fun s i => boltzmann rho s i * rho_b s.
   Definition residual (rho : field) : field := fun s i => rho_projected rho s i - rho s i.
   Definition residual_log (rho : field) : field := fun s i => ln (rho_projected rho s i) - ln (rho s i).
-  (** [DFTSpecifications::ChemicalPotential]: the bulk density is kept *)
-  Definition res_bulk (rho : field) (s : nat) : R := rho_b s - rho_b s.
-  Definition res_norm (rho : field) : R :=
+  (** [integrate_reduced] (the private unit-less twin of [integrate]: weights of every axis times the functional
+      determinant) and the normalisation integrals [z] of the particle-number specifications *)
+  Definition integrate_reduced (f : idx -> R) : R := integrate g f.
+  Definition z_norm (rho : field) (s : nat) : R := integrate_reduced (boltzmann rho s).
+  (** [DFTSpecifications::calculate_bulk_density] *)
+  Definition calculate_bulk_density (spec : specification) (rho : field) (s : nat) : R :=
+    match spec with
+    | ChemicalPotential => rho_b s
+    | Moles N => N s / z_norm rho s
+    | TotalMoles Nt => rho_b s * Nt / rsum (fun s' => rho_b s' * z_norm rho s') S
+    end.
+  Definition res_bulk (spec : specification) (rho : field) (s : nat) : R :=
+    calculate_bulk_density spec rho s - rho_b s.
+  Definition res_norm (spec : specification) (rho : field) : R :=
     sqrt (rsum (fun s => sum_axes (axes g) (fun i => (rho s i - rho_projected rho s i) * (rho s i - rho_projected rho s i))) S
-          + rsum (fun s => res_bulk rho s * res_bulk rho s) S)
+          + rsum (fun s => res_bulk spec rho s * res_bulk spec rho s) S)
     / sqrt (INR (S * fold_right Nat.mul 1%nat (map ax_points (axes g)) + S)).
 
   (** *** profile/properties.rs: grand_potential_density, grand_potential; mod.rs: moles *)
@@ -172,10 +192,11 @@ Section UniformEL.
   Lemma uniform_exp_dfdrho s i : exp_dfdrho uniform s i = 1.
   Proof. unfold exp_dfdrho. rewrite uniform_exponent, Ropp_0. apply exp_0. Qed.
 
+  Lemma uniform_boltzmann s i : boltzmann uniform s i = 1.
+  Proof. unfold boltzmann. rewrite uniform_exp_dfdrho, (H_conv_bond _ uniform_exp_dfdrho). ring. Qed.
+
   Theorem uniform_projected s i : rho_projected uniform s i = rho_b s.
-  Proof.
-    unfold rho_projected. rewrite uniform_exp_dfdrho, (H_conv_bond _ uniform_exp_dfdrho). ring.
-  Qed.
+  Proof. unfold rho_projected. rewrite uniform_boltzmann. ring. Qed.
 
   Theorem uniform_residual s i : residual uniform s i = 0.
   Proof. unfold residual. rewrite uniform_projected. unfold uniform. ring. Qed.
@@ -183,18 +204,54 @@ Section UniformEL.
   Theorem uniform_residual_log s i : residual_log uniform s i = 0.
   Proof. unfold residual_log. rewrite uniform_projected. unfold uniform. ring. Qed.
 
-  Theorem uniform_res_bulk s : res_bulk uniform s = 0.
-  Proof. unfold res_bulk. ring. Qed.
+  (** the normalisation integral of the uniform profile is the integral of one *)
+  Lemma uniform_z_norm s : z_norm uniform s = integrate g (fun _ => 1).
+  Proof. unfold z_norm, integrate_reduced. apply integrate_ext. intros i. apply uniform_boltzmann. Qed.
 
-  Theorem uniform_res_norm : res_norm uniform = 0.
+  (** bulk-density residual for the three specifications: chemical potential ... *)
+  Theorem uniform_res_bulk s : res_bulk ChemicalPotential uniform s = 0.
+  Proof. unfold res_bulk, calculate_bulk_density. ring. Qed.
+
+  (** ... specified particle numbers [N_s = rho_s * V]: the residual is rho_s (V - W) / W, zero when V is the
+      integral of one ... *)
+  Theorem uniform_res_bulk_moles_eq V s : integrate g (fun _ => 1) <> 0 ->
+    res_bulk (Moles (fun s' => rho_b s' * V)) uniform s
+    = rho_b s * (V - integrate g (fun _ => 1)) / integrate g (fun _ => 1).
+  Proof. intros HW. unfold res_bulk, calculate_bulk_density. rewrite uniform_z_norm. field. exact HW. Qed.
+
+  Theorem uniform_res_bulk_moles N s : integrate g (fun _ => 1) <> 0 ->
+    N s = rho_b s * integrate g (fun _ => 1) -> res_bulk (Moles N) uniform s = 0.
+  Proof. intros HW HN. unfold res_bulk, calculate_bulk_density. rewrite uniform_z_norm, HN. field. exact HW. Qed.
+
+  (** ... and specified total particle number *)
+  Theorem uniform_res_bulk_total_moles_eq V s : integrate g (fun _ => 1) <> 0 -> rsum rho_b S <> 0 ->
+    res_bulk (TotalMoles (rsum rho_b S * V)) uniform s
+    = rho_b s * (V - integrate g (fun _ => 1)) / integrate g (fun _ => 1).
   Proof.
-    unfold res_norm.
+    intros HW HR. unfold res_bulk, calculate_bulk_density.
+    rewrite (rsum_ext (fun s' => rho_b s' * z_norm uniform s') (fun s' => rho_b s' * integrate g (fun _ => 1)))
+      by (intros; now rewrite uniform_z_norm).
+    rewrite rsum_scal_r. field. split; assumption.
+  Qed.
+
+  Theorem uniform_res_bulk_total_moles Nt s : integrate g (fun _ => 1) <> 0 -> rsum rho_b S <> 0 ->
+    Nt = rsum rho_b S * integrate g (fun _ => 1) -> res_bulk (TotalMoles Nt) uniform s = 0.
+  Proof.
+    intros HW HR ->. rewrite uniform_res_bulk_total_moles_eq by assumption. field. exact HW.
+  Qed.
+
+  Theorem uniform_res_norm spec : (forall s, (s < S)%nat -> res_bulk spec uniform s = 0) -> res_norm spec uniform = 0.
+  Proof.
+    intros Hb. unfold res_norm.
     rewrite (rsum_ext _ (fun _ => 0)).
     2:{ intros s _. apply sum_axes_zero. intros i. rewrite uniform_projected. unfold uniform. ring. }
-    rewrite (rsum_ext (fun s => res_bulk uniform s * res_bulk uniform s) (fun _ => 0)).
-    2:{ intros s _. rewrite uniform_res_bulk. ring. }
+    rewrite (rsum_ext (fun s => res_bulk spec uniform s * res_bulk spec uniform s) (fun _ => 0)).
+    2:{ intros s Hs. rewrite Hb by assumption. ring. }
     rewrite !rsum_zero, Rplus_0_r, sqrt_0. unfold Rdiv. ring.
   Qed.
+
+  Theorem uniform_res_norm_chempot : res_norm ChemicalPotential uniform = 0.
+  Proof. apply uniform_res_norm. intros; apply uniform_res_bulk. Qed.
 
   (** ** Grand potential density, grand potential, adsorbed amount *)
 
